@@ -405,9 +405,13 @@ nni_msg_pull_up(nni_msg *m)
 	}
 
 	// At this point, we have a unique instance of the message.
-	// We also know that we have sufficient space in the message,
-	// so this insert operation cannot fail.
-	nni_msg_insert(m, nni_msg_header(m), nni_msg_header_len(m));
+	// We know that we have sufficient space in the message, but the
+	// insert may still have to reallocate to make headroom, and that
+	// can fail.  Do not drop the header in that case.
+	if (nni_msg_insert(m, nni_msg_header(m), nni_msg_header_len(m)) !=
+	    0) {
+		return (NULL);
+	}
 	nni_msg_header_clear(m);
 	return (m);
 }
